@@ -917,6 +917,9 @@ class _GenerateRenderMethod:
         for n in node.nodes:
             n.accept_visitor(self)
         if filtered:
+            if not node.nodes:
+                # an empty <%text>: the try: block needs a statement
+                self.printer.writeline("pass")
             self.printer.writelines(
                 "finally:",
                 "__M_buf, __M_writer = context._pop_buffer_and_writer()",
